@@ -224,8 +224,10 @@ same `absorb` and judged by the clause functions of `Timers.ok` that are sound f
   builder, target handler, supervisor of the target), the `t=` of an op after the snapshot of the events; the
   `t=` of a creation op and of `stop`/`kill`/`drain` is read BEFORE the API call (a lower bound of the call);
 * `earlyOk`, `shotOk`, `finOk`, `closedOk`, `handledOk`, `reasonOk` verbatim; `acceptOk` with the UPPER bound of
-  the instant the target stopped accepting (its observed exit) for a handle that said `Ok` and with the LOWER
-  bound (`lo`: the earliest closing API call / earliest legal firing of an exit_after / kill_after) for `Err`;
+  the instant the target stopped accepting (its observed exit) for a handle that said `Ok`; for `Err` its clause
+  "the target had stopped accepting" becomes: a close had begun (`lo`: the earliest closing API call / earliest
+  legal firing of an exit_after / kill_after) no later than the handle was seen finished (the attempt's own stamp
+  is taken before the failing send and may precede the close);
   in `reasonOk` an exit_after / kill_after timer counts from its earliest legal firing `created + period`
   (it has no message builder whose call could be time-stamped): exits are never early;
 * liveness with a generous real-time bound `slack`: `await i` must find timer `i` finished (bounded wait in the
@@ -254,7 +256,12 @@ def freeTimerOk (lo hi : Option Nat) (now : Nat) (τ : Timer) : Bool :=
   && closedOk hi τ
   && (match τ.res with
       | .ok => acceptOk hi τ
-      | .err => acceptOk lo τ
+      -- `Err`: the attempt's stamp is taken in the message builder, i.e. BEFORE the failing send, so it may
+      -- precede the close; what is certain is that a close had begun (`lo`) by the time the handle was seen finished
+      | .err => τ.kind != .sendAfter ||
+          (match lo, τ.finAt with
+           | some l, some tf => decide (l ≤ tf)
+           | _, _ => false)
       | _ => true)
 
 /-- an exit_after / kill_after timer, for `reasonOk`: acts no earlier than `created + period` -/
